@@ -223,7 +223,7 @@ def gen_two_gateway(rng: Rng) -> dict:
 
 def add_inject(case: dict) -> dict:
     """family `inject_low_ttl` (deterministic, draws nothing from the generator): crafted ICMP echo requests with TTL 3 / 2 / 1 handed
-    straight to an enabled, cabled router / firewall port (`RouterInterface.receive_frame`; model: `ifaceRecv`), from a host of that
+    straight to an enabled, cabled (wired) router / firewall / wireless-router port (`RouterInterface.receive_frame`; model: `ifaceRecv`), from a host of that
     port's LAN to (a) a host behind another gateway, (b) a host of the same LAN, (c) an unroutable address — so that
     `Router.process_frame` / `route_frame` are exercised at the TTL boundary (decrement, `< 1` test, header rewrite, send) with the
     caches as the case's operations left them (appended), and once before everything else with cold caches (TTL 2, remote
@@ -236,7 +236,7 @@ def add_inject(case: dict) -> dict:
     hosts = [(n, nd) for n, nd in enumerate(nodes) if nd["kind"] == "host"]
     tail, head = [], []
     for r, nd in enumerate(nodes):
-        if nd["kind"] not in ("router", "firewall"):
+        if nd["kind"] not in ("router", "firewall", "wrouter"):
             continue
         found = None
         for i, p in enumerate(nd["ports"]):
